@@ -208,7 +208,8 @@ impl Parser {
                 assert_eq!(arguments.as_rule(), Rule::function_arguments);
 
                 let mut allow_self_type = Cow::Borrowed(lhs_ty);
-                let mut assume_self_is_on_top = true;
+                // a method is called with its object; a function that is merely stored in a field is not
+                let mut assume_self_is_on_top = function_type.is_associated_fn();
 
                 if let TypeLayout::Module(module_type) = lhs_ty {
                     if let Some(ident) = module_type.get_property(&ident_str) {
